@@ -74,6 +74,9 @@ type World struct {
 	// SnapGone: the fault snapdir-gone lasts; SnapMissed: imports whose body ran meanwhile
 	SnapGone   bool
 	SnapMissed []string
+	// Restarted: Close + New in this process.  A job of the closed manager that was in flight goes on and can write
+	// its files after the new manager has looked at the directories (a real restart ends the process)
+	Restarted bool
 	// DoubleJobs: the service started a job of a kind while another job of that kind was in flight
 	DoubleJobs []string
 	// ConvGen: how often the executable of a converter was replaced by another one (part of what it outputs)
